@@ -1,11 +1,21 @@
 //go:build verif
 
 // Contracts for package set, read by /verif/govc (comment-only; not part of any build).
-// Syntax: see /verif/DESIGN.md section 3.4.
+// Syntax: see /verif/DESIGN.md section 3.4 and the header of govc/contract.go.
+// The lemma function used by Set.Equal lives in lemmas_verif.go (Go code behind the same build tag).
+//
+// Representation invariant wf(s): s.nodes (ghost) is the set of interval nodes; they form a doubly linked chain from the
+// Head sentinel to the Tail sentinel, sorted, with 0 <= Begin <= End <= MAXR, and CANONICAL: consecutive intervals neither
+// overlap nor touch (End + 1 < next Begin). An empty set is unlinked (Head.Forward == nil); the empty-but-linked form
+// Head.Forward == &Tail is not well formed. mem(s, x) is the abstraction to a mathematical set of integers.
 
 package set
 
 //@ ghostfield Set.nodes set
+//@ -- ghost maps of a set built by Copy/Complement: src maps a node of the new set to the operand node it was derived
+//@ -- from, dst maps an operand node to the node of the new set derived from it (witnesses for both directions of mem)
+//@ ghostfield Set.src map
+//@ ghostfield Set.dst map
 //@ const INF = 1099511627776
 //@ const MAXR = 2147483646
 //@ const MAXI32 = 2147483647
@@ -14,6 +24,8 @@ package set
 //@ pred Tl(s *Set) = &s.Tail
 //@ pred lo(s *Set, r *Node) = ite(r == H(s), -1, r.End)
 //@ pred hi(s *Set, r *Node) = ite(r == Tl(s), INF, r.Begin)
+//@ -- lo1: first value that may start the interval after r: consecutive intervals neither overlap nor touch (canonical form)
+//@ pred lo1(s *Set, r *Node) = ite(r == H(s), -1, r.End + 1)
 //@ pred chain(s *Set, r *Node) = r == H(s) || in(r, s.nodes)
 //@ pred sentinels(s *Set) = !in(H(s), s.nodes) && !in(Tl(s), s.nodes) && !in(nil, s.nodes)
 //@      && Tl(s).Forward == nil && H(s).Backward == nil
@@ -21,19 +33,55 @@ package set
 //@ pred emptyFresh(s *Set) = H(s).Forward == nil && Tl(s).Backward == nil && forall(r, !in(r, s.nodes))
 //@ pred linked(s *Set) = H(s).Forward != nil && Tl(s).Backward != nil && H(s).Forward != Tl(s)
 //@ pred W1(s *Set) = forall(r * Node, imp(in(r, s.nodes), allocated(r) && 0 <= r.Begin && r.Begin <= r.End && r.End <= MAXR))
-//@ pred W2(s *Set) = forall(r * Node, imp(chain(s, r),
-//@        (in(r.Forward, s.nodes) || r.Forward == Tl(s)) && lo(s, r) < hi(s, r.Forward) && r.Forward.Backward == r))
-//@ pred W2b(s *Set) = forall(r * Node, imp(in(r, s.nodes) || r == Tl(s), chain(s, r.Backward) && r.Backward.Forward == r))
-//@ pred W3(s *Set) = forall(r * Node, m * Node, imp(chain(s, r) && in(m, s.nodes),
+//@ pred W2(s *Set) = forall(r * Node, trig(r.Forward), imp(chain(s, r),
+//@        (in(r.Forward, s.nodes) || r.Forward == Tl(s)) && lo1(s, r) < hi(s, r.Forward) && r.Forward.Backward == r))
+//@ pred W2b(s *Set) = forall(r * Node, trig(r.Backward), imp(in(r, s.nodes) || r == Tl(s), chain(s, r.Backward) && r.Backward.Forward == r))
+//@ pred W3(s *Set) = forall(r * Node, m * Node, trig(in(m, s.nodes), r.Forward), imp(chain(s, r) && in(m, s.nodes),
 //@        m == r || (r != H(s) && m.End < r.Begin) || m.Begin >= hi(s, r.Forward)))
-//@ pred wf(s *Set) = allocated(s) && sentinels(s) && (emptyFresh(s) || linked(s))
+//@ pred wf(s *Set) = 0 < s && s + 4 <= alloc && sentinels(s) && (emptyFresh(s) || linked(s))
 //@      && imp(linked(s), W1(s)) && imp(linked(s), W2(s)) && imp(linked(s), W2b(s)) && imp(linked(s), W3(s))
 //@ defpred mem(s *Set, x rune) reads Set.nodes, Node.Begin, Node.End = exists(r * Node, in(r, s.nodes) && r.Begin <= x && x <= r.End)
 //@ pred ownNode(s *Set, r *Node) = in(r, s.nodes) || r == H(s) || r == Tl(s)
 
+//@ -- cardinality: sum of (End-Begin+1) along the Forward chain starting at r (0 at the Tail / at any node without successor).
+//@ -- The unfolding is guarded so that the axioms have a model over EVERY heap: the guard forces
+//@ -- 0 <= Begin <= End <= MAXR and End[r] < Begin[Forward[r]] (or Forward[r] is a last node), so along any chain on which the
+//@ -- guard keeps holding Begin strictly increases inside [0, MAXR]: the chain is finite and cardFrom is defined by
+//@ -- recursion on it (value 0 where the guard fails). Every summand is >= 1, hence cardFrom >= 0.
+//@ -- The unfolding is triggered only when both cardFrom(r) and cardFrom(Forward[r]) already occur (it relates existing
+//@ -- terms and never creates a new one: no matching loop).
+//@ specfunc cardFrom(r *Node) int reads Node.Forward, Node.Begin, Node.End
+//@ smt (assert (forall ((r Int) (F (Array Int Int)) (B (Array Int Int)) (E (Array Int Int)))
+//@     (! (=> (= (select F r) 0) (= (cardFrom r F B E) 0)) :pattern ((cardFrom r F B E)))))
+//@ smt (assert (forall ((r Int) (F (Array Int Int)) (B (Array Int Int)) (E (Array Int Int)))
+//@     (! (=> (and (not (= (select F r) 0)) (<= 0 (select B r)) (<= (select B r) (select E r)) (<= (select E r) 2147483646)
+//@                 (or (= (select F (select F r)) 0) (< (select E r) (select B (select F r)))))
+//@            (= (cardFrom r F B E) (+ (- (select E r) (select B r)) 1 (cardFrom (select F r) F B E))))
+//@        :pattern ((cardFrom r F B E) (cardFrom (select F r) F B E)))))
+//@ smt (assert (forall ((r Int) (F (Array Int Int)) (B (Array Int Int)) (E (Array Int Int)))
+//@     (! (>= (cardFrom r F B E) 0) :pattern ((cardFrom r F B E)))))
+//@ pred card(s *Set) = ite(H(s).Forward == nil, 0, cardFrom(H(s).Forward))
+
+//@ -- partial list under construction (Copy, Complement): t's chain runs from H(t) to its last node b, b.Forward == nil,
+//@ -- Tl(t) is not linked yet. P2/P2b/P3 are W2/W2b/W3 restricted to that prefix; P1 adds that every node is fresh.
+//@ pred P1(t *Set) = forall(r * Node, imp(in(r, t.nodes), old(alloc) <= r && allocated(r) && 0 <= r.Begin && r.Begin <= r.End && r.End <= MAXR))
+//@ pred P2(t *Set, b *Node) = forall(r * Node, trig(r.Forward), imp(chain(t, r) && r != b,
+//@        in(r.Forward, t.nodes) && lo1(t, r) < r.Forward.Begin && r.Forward.Backward == r))
+//@ pred P2b(t *Set) = forall(r * Node, trig(r.Backward), imp(in(r, t.nodes), chain(t, r.Backward) && r.Backward.Forward == r))
+//@ pred P3(t *Set, b *Node) = forall(r * Node, m * Node, trig(in(m, t.nodes), r.Forward), imp(chain(t, r) && in(m, t.nodes),
+//@        m == r || (r != H(t) && m.End < r.Begin) || (r != b && m.Begin >= r.Forward.Begin)))
+//@ -- frame facts carried through loops: objects that existed at function entry are unchanged
+//@ pred sameF() = forall(r * Node, imp(0 < r && r < old(alloc), r.Forward == old(r.Forward)))
+//@ pred sameK() = forall(r * Node, imp(0 < r && r < old(alloc), r.Backward == old(r.Backward)))
+//@ pred sameB() = forall(r * Node, imp(0 < r && r < old(alloc), r.Begin == old(r.Begin)))
+//@ pred sameE() = forall(r * Node, imp(0 < r && r < old(alloc), r.End == old(r.End)))
+//@ pred sameN() = forall(t * Set, imp(0 < t && t < old(alloc), t.nodes == old(t.nodes)))
+//@ pred sameS() = forall(t * Set, imp(0 < t && t < old(alloc), t.src == old(t.src)))
+//@ pred sameD() = forall(t * Set, imp(0 < t && t < old(alloc), t.dst == old(t.dst)))
+
 //@ func NewSet
 //@   ensures fresh(result) && wf(result) && emptyFresh(result)
-//@   modifies Node.Forward, Node.Backward, Node.Begin, Node.End, Set.nodes at r where false
+//@   modifies Node.Forward, Node.Backward, Node.Begin, Node.End, Set.nodes, Set.src, Set.dst at r where false
 
 //@ func Set.Has
 //@   requires wf(s) && 0 <= begin && begin <= MAXR
@@ -46,6 +94,7 @@ package set
 //@   requires wf(s) && 0 <= a && a <= MAXR
 //@   ensures  wf(s)
 //@   ensures  forall(x, mem(s, x) == (old(mem(s, x)) || x == a))
+//@   ensures  forall(r * Node, imp(in(r, s.nodes), old(in(r, s.nodes)) || fresh(r)))
 //@   modifies Node.Forward, Node.Backward, Node.Begin, Node.End at r where ownNode(s, r)
 //@   modifies Set.nodes at r where r == s
 //@   overflow checked
@@ -54,15 +103,164 @@ package set
 //@   requires wf(s) && 0 <= begin && begin <= end && end <= MAXR
 //@   ensures  wf(s)
 //@   ensures  forall(x, mem(s, x) == (old(mem(s, x)) || (begin <= x && x <= end)))
+//@   ensures  forall(r * Node, imp(in(r, s.nodes), old(in(r, s.nodes)) || fresh(r)))
 //@   modifies Node.Forward, Node.Backward, Node.Begin, Node.End at r where ownNode(s, r)
 //@   modifies Set.nodes at r where r == s
 //@   overflow checked
-//@   loop 0 invariant beginNode == H(s) || (in(beginNode, s.nodes) && beginNode.End < begin)
-//@                    || (beginNode == Tl(s) && linked(s) && 0 < begin && forall(m * Node, imp(in(m, s.nodes), m.End < begin)))
-//@   loop 1 invariant endNode == Tl(s) || (in(endNode, s.nodes) && end < endNode.Begin)
-//@                    || (endNode == H(s) && linked(s) && forall(m * Node, imp(in(m, s.nodes), end < m.Begin)))
-//@   loop 1 invariant beginNode == H(s) || (in(beginNode, s.nodes) && beginNode.End < begin)
-//@                    || (beginNode == Tl(s) && linked(s) && 0 < begin && forall(m * Node, imp(in(m, s.nodes), m.End < begin)))
+//@   loop 0 invariant beginNode == H(s) || (in(beginNode, s.nodes) && beginNode.End < begin - 1)
+//@                    || (beginNode == Tl(s) && linked(s) && 1 < begin && forall(m * Node, imp(in(m, s.nodes), m.End < begin - 1)))
+//@   loop 1 invariant endNode == Tl(s) || (in(endNode, s.nodes) && end + 1 < endNode.Begin)
+//@                    || (endNode == H(s) && linked(s) && forall(m * Node, imp(in(m, s.nodes), end + 1 < m.Begin)))
+//@   loop 1 invariant beginNode == H(s) || (in(beginNode, s.nodes) && beginNode.End < begin - 1)
+//@                    || (beginNode == Tl(s) && linked(s) && 1 < begin && forall(m * Node, imp(in(m, s.nodes), m.End < begin - 1)))
 //@   ghost after "node := Node{Begin: begin, End: end}" : s.nodes = add(s.nodes, &node)
 //@   ghost after "endNode.Backward = node" : s.nodes = setof(m * Node, in(m, s.nodes)
 //@         && !(m != node && m.Begin > node.Begin && (endNode == Tl(s) || m.Begin < endNode.Begin)))
+
+//@ func Set.Len
+//@   requires wf(s)
+//@   ensures  result == card(s)
+//@   ensures  result >= 0 && (result == 0) == emptyFresh(s)
+//@   overflow checked
+//@   loop 0 invariant linked(s) && (in(beginNode, s.nodes) || beginNode == Tl(s))
+//@   loop 0 invariant size + cardFrom(beginNode) == cardFrom(H(s).Forward)
+//@   loop 0 invariant 0 <= size && size <= lo(s, beginNode.Backward) + 1
+//@   loop 0 invariant beginNode == H(s).Forward || size >= 1
+
+//@ func Set.Copy
+//@   requires wf(s)
+//@   ensures  fresh(result) && wf(result)
+//@   ensures  forall(x, mem(s, x) == old(mem(s, x)))
+//@   ensures  forall(x, mem(result, x) == mem(s, x))
+//@   ensures  forall(r * Node, imp(in(r, result.nodes), fresh(r)))
+//@   modifies Node.Forward, Node.Backward, Node.Begin, Node.End, Set.nodes, Set.src, Set.dst at r where false
+//@   overflow checked
+//@   ghost after "b.Forward = &node" : set.nodes = add(set.nodes, &node)
+//@   ghost after "b.Forward = &node" : set.src = put(set.src, &node, a)
+//@   ghost after "b.Forward = &node" : set.dst = put(set.dst, a, &node)
+//@   loop 0 invariant sameF() && sameK() && sameB() && sameE() && sameN() && sameS() && sameD()
+//@   loop 0 invariant old(linked(s)) && (in(a, s.nodes) || a == Tl(s))
+//@   loop 0 invariant old(alloc) <= set && set + 4 <= alloc
+//@   loop 0 invariant sentinels(set) && Tl(set).Backward == nil
+//@   loop 0 invariant chain(set, b) && b.Forward == nil
+//@   loop 0 invariant b != H(set) || a == H(s).Forward
+//@   loop 0 invariant imp(b != H(set), at(set.src, b) == a.Backward)
+//@   loop 0 invariant lo1(set, b) < hi(s, a)
+//@   loop 0 invariant P1(set)
+//@   loop 0 invariant P2(set, b)
+//@   loop 0 invariant P2b(set)
+//@   loop 0 invariant P3(set, b)
+//@   loop 0 invariant forall(m * Node, imp(in(m, set.nodes), in(at(set.src, m), s.nodes) && m.End < hi(s, a)
+//@                       && m.Begin == at(set.src, m, Node).Begin && m.End == at(set.src, m, Node).End))
+//@   loop 0 invariant forall(r * Node, imp(in(r, s.nodes) && r.Begin < hi(s, a), in(at(set.dst, r), set.nodes)
+//@                       && at(set.dst, r, Node).Begin == r.Begin && at(set.dst, r, Node).End == r.End))
+
+//@ func Set.Union
+//@   requires wf(s) && wf(a)
+//@   ensures  fresh(result) && wf(result)
+//@   ensures  forall(x, mem(s, x) == old(mem(s, x))) && forall(x, mem(a, x) == old(mem(a, x)))
+//@   ensures  forall(x, mem(result, x) == (mem(s, x) || mem(a, x)))
+//@   ensures  forall(r * Node, imp(in(r, result.nodes), fresh(r)))
+//@   modifies Node.Forward, Node.Backward, Node.Begin, Node.End, Set.nodes, Set.src, Set.dst at r where false
+//@   overflow checked
+//@   loop 0 invariant sameF() && sameK() && sameB() && sameE() && sameN() && sameS() && sameD()
+//@   loop 0 invariant old(linked(a)) && (in(node, a.nodes) || node == Tl(a))
+//@   loop 0 invariant old(alloc) <= set && wf(set)
+//@   loop 0 invariant forall(r * Node, imp(in(r, set.nodes), old(alloc) <= r))
+//@   loop 0 invariant forall(x, mem(set, x) == (old(mem(s, x)) || (old(mem(a, x)) && x < hi(a, node))))
+
+//@ -- noEnd(p, q): neither end point of q's interval lies in p's interval (what the inner loops of Intersects test)
+//@ pred noEnd(p *Node, q *Node) = !(p.Begin <= q.Begin && q.Begin <= p.End) && !(p.Begin <= q.End && q.End <= p.End)
+//@ func Set.Intersects
+//@   requires wf(s) && wf(b)
+//@   ensures  result ==> exists(v, mem(s, v) && mem(b, v))
+//@   ensures  exists(v, mem(s, v) && mem(b, v)) ==> result
+//@   overflow checked
+//@   -- dead code found by the path canaries (proved infeasible instead of being waved through):
+//@   dead 3 : second sweep, `else if y.End in x`: y.Begin < x.Begin <= y.End means x.Begin lies in the s-interval y, which sweep 1 excluded
+//@   dead 5 : second sweep, `y == nil`: s is not empty there (the first check returned otherwise)
+//@   -- sweep 1: x over s, y over b
+//@   loop 0 invariant linked(s) && (in(x, s.nodes) || x == Tl(s))
+//@   loop 0 invariant forall(p * Node, q * Node, imp(in(p, s.nodes) && p.Begin < hi(s, x) && in(q, b.nodes), noEnd(p, q)))
+//@   loop 1 invariant linked(b) && in(x, s.nodes) && (in(y, b.nodes) || y == Tl(b))
+//@   loop 1 invariant forall(q * Node, imp(in(q, b.nodes) && q.Begin < hi(b, y), noEnd(x, q)))
+//@   loop 1 invariant imp(in(y, b.nodes), mem(b, y.Begin) && mem(b, y.End))
+//@   -- sweep 2: x over b, y over s
+//@   loop 2 invariant linked(b) && (in(x, b.nodes) || x == Tl(b))
+//@   loop 2 invariant forall(p * Node, q * Node, imp(in(p, b.nodes) && p.Begin < hi(b, x) && in(q, s.nodes), noEnd(p, q)))
+//@   loop 3 invariant linked(s) && in(x, b.nodes) && (in(y, s.nodes) || y == Tl(s))
+//@   loop 3 invariant forall(q * Node, imp(in(q, s.nodes) && q.Begin < hi(s, y), noEnd(x, q)))
+//@   loop 3 invariant imp(in(y, s.nodes), mem(s, y.Begin) && mem(s, y.End))
+
+//@ -- String: safety only (no panic, no nil dereference, no overflow of code++), nothing modified. The produced text is
+//@ -- not specified: fmt.Sprintf is an external function with an assumed contract (unconstrained result).
+//@ func Set.String
+//@   requires wf(s)
+//@   overflow checked
+//@   loop 0 invariant imp(linked(s), in(node, s.nodes) || node == Tl(s)) && imp(!linked(s), node == nil)
+//@   loop 1 invariant node.Begin <= code && code <= node.End + 1
+
+//@ -- Complement(endSymbol): complement within [0, endSymbol]. Precondition: the operand has no element above
+//@ -- endSymbol + 1 (peg calls it as s.Add(E); s.Complement(E - 1)). Outside that precondition the code emits gaps
+//@ -- that lie above endSymbol, so the property cannot hold there without clipping every gap.
+//@ pred nxt(s *Set, r *Node) = ite(r == H(s), 0, r.End + 1)
+//@ func Set.Complement
+//@   requires wf(s) && 0 <= endSymbol && endSymbol <= MAXR
+//@   requires forall(r * Node, imp(in(r, s.nodes), r.End <= endSymbol + 1))
+//@   ensures  fresh(result) && wf(result)
+//@   ensures  forall(x, mem(s, x) == old(mem(s, x)))
+//@   ensures  forall(x, mem(result, x) == (0 <= x && x <= endSymbol && !mem(s, x)))
+//@   ensures  forall(r * Node, imp(in(r, result.nodes), fresh(r)))
+//@   modifies Node.Forward, Node.Backward, Node.Begin, Node.End, Set.nodes, Set.src, Set.dst at r where false
+//@   overflow checked
+//@   ghost after "set.Tail.Backward = &node" : set.nodes = add(set.nodes, &node)
+//@   ghost after "b.Forward = &node" : set.nodes = add(set.nodes, &node)
+//@   ghost after "b.Forward = &node" : set.src = put(set.src, &node, a)
+//@   loop 0 invariant sameF() && sameK() && sameB() && sameE() && sameN() && sameS() && sameD()
+//@   loop 0 invariant old(linked(s)) && (in(a, s.nodes) || a == Tl(s)) && chain(s, a.Backward)
+//@   loop 0 invariant imp(a.Backward == H(s), a.Begin > 0)
+//@   loop 0 invariant 0 <= pre && ((pre == nxt(s, a.Backward) && (a.Backward == H(s) || a.Backward.End != endSymbol))
+//@                       || (a.Backward != H(s) && pre == endSymbol && a.Backward.End == endSymbol))
+//@   loop 0 invariant old(alloc) <= set && set + 4 <= alloc
+//@   loop 0 invariant sentinels(set) && Tl(set).Backward == nil
+//@   loop 0 invariant chain(set, b) && b.Forward == nil
+//@   loop 0 invariant imp(b != H(set), at(set.src, b) == a.Backward)
+//@   loop 0 invariant P1(set)
+//@   loop 0 invariant P2(set, b)
+//@   loop 0 invariant P2b(set)
+//@   loop 0 invariant P3(set, b)
+//@   loop 0 invariant forall(m * Node, imp(in(m, set.nodes), in(at(set.src, m), s.nodes) && at(set.src, m, Node).Begin < hi(s, a)
+//@                       && m.Begin == nxt(s, at(set.src, m, Node).Backward) && m.End == at(set.src, m, Node).Begin - 1
+//@                       && m.End < pre && m.End <= endSymbol))
+//@   loop 0 invariant forall(x, imp(0 <= x && x < pre && !old(mem(s, x)), mem(set, x)))
+
+//@ -- seeds(s, x): two true facts about a node x of s. They put the terms mem(s, x.Begin) and mem(s, x.End + 1) in front of
+//@ -- the solver, which are the witnesses it needs when two lists differ (the second one is the canonical form: the value
+//@ -- right after an interval is not an element).
+//@ -- (written as one negation so that it stays a single obligation in which the term x.Forward occurs: W2/W3 are triggered by it)
+//@ pred seeds(s *Set, x *Node) = !(in(x, s.nodes) && (!mem(s, x.Begin) || mem(s, x.End + 1) || x.Forward == nil))
+//@ pred EQ(s *Set, a *Set) = forall(v, mem(s, v) == mem(a, v))
+
+//@ func lemmaCard
+//@   lemmafunc
+//@   requires wf(s) && wf(a)
+//@   ensures  imp(linked(s), mem(s, H(s).Forward.Begin)) && imp(linked(a), mem(a, H(a).Forward.Begin))
+//@   ensures  imp(EQ(s, a), card(s) == card(a))
+//@   loop 0 decreases cardFrom(x)
+//@   loop 0 invariant linked(s) && linked(a) && (in(x, s.nodes) || x == Tl(s)) && (in(y, a.nodes) || y == Tl(a))
+//@   loop 0 invariant seeds(s, x) && seeds(a, y)
+//@   loop 0 invariant imp(EQ(s, a), lo(s, x.Backward) == lo(a, y.Backward))
+//@   loop 0 invariant imp(EQ(s, a), cardFrom(H(s).Forward) - cardFrom(x) == cardFrom(H(a).Forward) - cardFrom(y))
+
+//@ -- Equal: extensional equality. It holds because wf lists are canonical (AddRange merges touching intervals, F3 repair):
+//@ -- equal element sets have equal Len (lemmaCard) and equal interval lists, so the structural walk decides it.
+//@ func Set.Equal
+//@   requires wf(s) && wf(a)
+//@   ensures  result ==> forall(v, mem(s, v) == mem(a, v))
+//@   ensures  forall(v, mem(s, v) == mem(a, v)) ==> result
+//@   overflow checked
+//@   ghost after "lens, lena := s.Len(), a.Len()" : use lemmaCard(s, a)
+//@   loop 0 invariant linked(s) && linked(a) && (in(x, s.nodes) || x == Tl(s)) && (in(y, a.nodes) || y == Tl(a))
+//@   loop 0 invariant seeds(s, x) && seeds(a, y)
+//@   loop 0 invariant lo(s, x.Backward) == lo(a, y.Backward)
+//@   loop 0 invariant forall(v, imp(v <= lo(s, x.Backward), mem(s, v) == mem(a, v)))
